@@ -339,6 +339,21 @@ def equiv_case(name):
       ctx.require('arraylike_%s_same_transform' % vname,
                   ctx.cond(np.allclose(ref.transform(qp.astype(np.int64).tolist()), ref.transform(qp))
                            and np.allclose(ref.transform(np.asfortranarray(qp)), ref.transform(qp))))
+    # narrow / unsigned integer types (numbers shifted into their range): integer arithmetic must not wrap around inside fit
+    Dp = D + 20.0
+    refp = fit(np.ascontiguousarray(Dp, dtype=np.float64))
+    for dt in (np.uint8, np.int8, np.uint16, np.int16, np.uint32):
+      vname = np.dtype(dt).name
+      try:
+        est = fit(Dp.astype(dt))
+      except Exception as e:   # noqa
+        ctx.fail('arraylike_%s_accepted' % vname, detail=repr(e))
+        continue
+      ctx.require('arraylike_%s_same_model' % vname,
+                  ctx.cond(est.components_.shape == refp.components_.shape and
+                           np.allclose(est.components_, refp.components_, rtol=1e-5, atol=1e-7)))
+      qq = (qp + 20.0).astype(dt)
+      ctx.require('arraylike_%s_same_transform' % vname, ctx.cond(np.allclose(refp.transform(qq), refp.transform(qq.astype(float)))))
   return fn
 
 
